@@ -292,7 +292,60 @@ Definition create (cs : list name) (rs : list row) : table := mkT cs (unkeyed rs
 
 Definition all_true : flags := mkF true true true true true true true.
 
+Definition dcreate (tbls : list (list name * list row)) : list table := map (fun cr => create (fst cr) (snd cr)) tbls.
+
 (* the flags of the code under test, as regenerated from the source *)
 Definition impl_flags : flags :=
   mkF Generated.get_commits Generated.set_commits Generated.len_commits Generated.db_commits
       Generated.index_commits Generated.rindex_commits Generated.dedup_last_key.
+
+(* ---- a database: several named tables (Database.tables), table i is called T<i> ---------------------------
+   Database.__call__ binds EVERY table's committed frame (get_dataframe() of each, in dictionary order) before
+   the SQL runs, so a query commits all tables and fails when any of them cannot be committed. *)
+Inductive dop :=
+| DOp (i : nat) (o : op)        (* an operation on table i (a query: db("select ... from T<i>")) *)
+| DSchema.                      (* .schema(db): table name -> column names *)
+
+Inductive dobs := DV (v : obs) | DSchemas (l : list (list name)).
+
+Fixpoint upd {A} (i : nat) (x : A) (l : list A) : list A :=
+  match i, l with
+  | O, _ :: t => x :: t
+  | S j, y :: t => y :: upd j x t
+  | _, [] => []
+  end.
+
+Fixpoint commit_all (fl : flags) (d : list table) : option (list table) :=
+  match d with
+  | [] => Some []
+  | t :: r => match commit_if (f_db_commits fl) fl t, commit_all fl r with
+              | Some t', Some r' => Some (t' :: r')
+              | _, _ => None
+              end
+  end.
+
+Definition is_query (o : op) : bool := match o with OQuery _ => true | _ => false end.
+
+Definition dstep (fl : flags) (d : list table) (o : dop) : list table * dobs :=
+  match o with
+  | DSchema => (d, DSchemas (map cols d))
+  | DOp i o =>
+      if is_query o then
+        match commit_all fl d with
+        | None => (d, DV VErr)
+        | Some d1 => match nth_error d1 i with
+                     | None => (d1, DV VErr)                       (* unknown table name: the SQL fails *)
+                     | Some t => let '(t1, v) := step fl t o in (upd i t1 d1, DV v)
+                     end
+        end
+      else match nth_error d i with
+           | None => (d, DV VErr)
+           | Some t => let '(t1, v) := step fl t o in (upd i t1 d, DV v)
+           end
+  end.
+
+Fixpoint drun (fl : flags) (d : list table) (ops : list dop) : list dobs :=
+  match ops with
+  | [] => []
+  | o :: r => let '(d1, v) := dstep fl d o in v :: drun fl d1 r
+  end.
